@@ -477,6 +477,7 @@ def oracle_fine(prop, case, impl):
             ref.tgt[t] = None
         elif name == 'resize':
             n = int(w[2])
+            ref.prev_tgt = ref.tgt[t]
             failed = any(e and e[0] == 4 for e in L.events)
             if n >= 1 and not failed and (n <= after['cap']):
                 f = ref.tgt[t][1] if ref.tgt[t] else 0
@@ -529,6 +530,12 @@ def oracle_fine(prop, case, impl):
                 if g != ref.tgt[t]:
                     return ('%s:geometry' % name, 'after operation %d (%s) the table is heading for (%d buckets, function %d); '
                             'most recent satisfiable request: (%d, %d)' % (i, op, g[0], g[1], ref.tgt[t][0], ref.tgt[t][1]))
+            if name == 'resize' and pend_b and not pend_a and ref.tgt[t] is not None and getattr(ref, 'prev_tgt', None) == ref.tgt[t] \
+                    and before['count'] - before['rclean'] > 3:
+                # the request repeats the geometry the table is already heading for: nothing to do, in particular not the
+                # whole remaining rehash in one call
+                return ('resize:noop-forced-rehash', 'operation %d (%s) repeats the pending geometry but completed the pending rehash '
+                        '(%d buckets were still to be swept) in one call' % (i, op, before['count'] - before['rclean']))
             if name in KEYED:
                 k = int(w[2]) if name == 'find' else ref.key(int(w[2]))
                 if not pend_b:
